@@ -25,6 +25,8 @@ def run(ctx):
     ctx.rule("R01.4", "source priority table: Interrupt/Terminate -> Urgent, other signals -> High, keyboard EOF -> Normal (as documented on Priority), fs events -> Normal")
     ctx.rule("R01.6", "signal source table: each OS signal listener (SignalKind::x) is paired, through its position in the select!, with the "
                       "Signal variant of the same meaning (hangup->Hangup, interrupt->Interrupt, quit->Quit, terminate->Terminate, usr1->User1, usr2->User2)")
+    ctx.rule("R01.7", "the collector gives up (Ok(None), which ends the action worker) only when the event queue is closed: every such return "
+                      "follows a true events.is_closed() test or a recv() error")
     ctx.rule("R01.5", "no silent loss at the sources: a failed send/try_send of an event is reported on the error channel")
     facts = ctx.facts
     try:
@@ -83,6 +85,25 @@ def run(ctx):
                             "a returned batch is known to be non-empty", f.loc(f.line),
                             fail="throttle_collect can return an empty batch: the action handler would be invoked with no events")
         ctx.floor("R01.2", "Some(set) return paths", nsome, 6)
+        # R01.7 over whole-function paths (prelude + escapes of the loop)
+        en = pathx.Enum(interesting=throttle.interesting)
+        n_none = 0
+        for q in en.paths(thir.root(f)):
+            if q.out in ("ret", "val") and (q.val or "").replace(" ", "") in ("Ok{0:None}",):
+                n_none += 1
+                closed = None
+                for e in q.ev:
+                    if e[0] == "branch":
+                        if throttle.implies(e[1], e[2], "Receiver::is_closed(events)", True):
+                            closed = True
+                        elif throttle.implies(e[1], e[2], "Receiver::is_closed(events)", False):
+                            closed = False
+                    elif e[0] == "arm" and e[1] == "maybe_event" and e[2][0].startswith("Ok(Err("):
+                        closed = True
+                ctx.require(closed is True, "R01.7", "gives-up-only-when-closed:" + ("prelude" if not any(e[0] == "loop" for e in q.ev) and not q.ev[-1][0] == "arm" and len(q.ev) < 4 else "loop"),
+                            "Ok(None) is returned only after the queue was seen closed", f.loc(f.line), detail=pathx.show_events(q.ev)[-300:],
+                            fail="throttle_collect returns Ok(None) - which ends the action worker and with it event delivery - while the event queue is open")
+        ctx.floor("R01.7", "Ok(None) return paths of throttle_collect", n_none, 3)
     except Skip:
         pass
 
